@@ -234,7 +234,7 @@ def _simple(d):
             set(p) <= {'name', 'type', 'nullable'} for p in d['params'])
 
 
-def build_def_shared(d, shared, name='f'):
+def build_def_shared(d, shared, name='f', tagged=True):
     """One undecorated Python callable registered several times, each time
     with the parameter types of another family member supplied through
     parameter_type_func (a public argument of register_function /
@@ -260,9 +260,12 @@ def build_def_shared(d, shared, name='f'):
     fd = specs.get_function_definition(
         func, name=name, parameter_type_func=lambda n: make_type(
             types[n]['type'], types[n].get('nullable', False)))
-    tag = d['tag']
-    inner = fd.payload
-    fd.payload = lambda *a, **kw: [tag] + inner(*a, **kw)[1:]
+    if tagged:
+        # (report which member ran; untagged, all members keep the very
+        # same payload object and only the arguments are reported)
+        tag = d['tag']
+        inner = fd.payload
+        fd.payload = lambda *a, **kw: [tag] + inner(*a, **kw)[1:]
     return fd
 
 
@@ -291,8 +294,9 @@ def build_chain(family, base, orders=None, ordered=True, reg_order=None):
         if family.get('decl') in ('signature', 'signature-reregistered'):
             fd = build_def_declared(
                 d, reregister=family['decl'] == 'signature-reregistered')
-        elif family.get('decl') == 'shared-callable':
-            fd = build_def_shared(d, shared)
+        elif family.get('decl') in ('shared-callable', 'shared-payload'):
+            fd = build_def_shared(
+                d, shared, tagged=family['decl'] == 'shared-callable')
         if fd is None:
             fd = build_def(d)
         defs[d['tag']] = fd
